@@ -4,49 +4,49 @@ import json, subprocess, os
 
 CHECKS = {
  "C01": ("exploration", "differential reference-model monitor over real memproxy", "§3 C01",
-         "Every reply of the real memproxy binary (built from the working tree) to seeded closed-loop command sequences is compared with a reference single map; held on the sequences/configurations counted in the evidence, nothing more.",
+         "Every reply of the real memproxy binary (built from the working tree) to seeded closed-loop command sequences is compared with a reference single map; held on the sequences/configurations counted in the evidence, nothing more. Shapes: every orchestrator x {plain, chunking, batching, in-process} L1 as deployed by memproxy; a server that starts, accepts and does not answer is a violation.",
          "fakemc implements memcached semantics; one client at a time; no faults"),
  "C02": ("exploration", "differential monitor + store-inclusion invariant probe with seeded L1 evictions", "§3 C02",
-         "Replies are compared with a tier-agnostic reference map while L1 entries are discarded between commands, and after every command the two fake backends are compared (L1 subset of L2, equal value and flags).",
+         "Replies are compared with a tier-agnostic reference map while L1 entries are discarded between commands, and after every command the two fake backends are compared (L1 subset of L2, equal value and flags); chunking-L1 shapes are judged on replies only.",
          "evictions only between commands; TTL 0"),
  "C08": ("exploration", "strict wire decoders over whole reply streams with opaque/order attribution", "§3 C08",
-         "The complete reply stream of pipelined connections is decoded strictly; every frame/line is attributed to a request, shape compared with the model, sentinel detects surplus or missing output; single requests are awaited without further input.",
+         "The complete reply stream of pipelined connections is decoded strictly; every frame/line is attributed to a request, shape compared with the model, sentinel detects surplus or missing output; single requests are awaited without further input; every kind of request is also sent as the FIRST request of a connection (protocol detection).",
          "reply order across opaques not required; opcode echo not required"),
  "C04": ("exploration", "differential reference-model monitor + backend request-log monitor on chunked.Handler", "§3 C04",
          "chunked.Handler runs against the fake backend for a dense grid of value/key lengths and random command sequences; results are compared with the reference map and every backend request is checked to be derived from the client key, unshared, and gone after delete.",
          "no concurrency, loss or faults here (C05, C10); orphan chunks beyond the current count are counted, not judged"),
  "C05": ("fault_enumeration", "exhaustive entry-loss enumeration + controlled-scheduler interleaving of real handlers, membership oracle", "§3 C05",
-         "Every subset of a value's backend entries is removed (exhaustive up to n chunks) and every interleaving at backend-request granularity of two sets and a reader is executed on the real handler (DFS, complete for small programs); each read must be a miss or a fully written value.",
+         "Every subset of a value's backend entries is removed (exhaustive up to n chunks) and every interleaving at backend-request granularity of two sets and a reader is executed on the real handler (DFS, complete for small programs); each read must be a miss or a fully written value; append/prepend over every loss subset; a monitor over the write identities of thousands of sets constructs the torn interleaving if an identity ever repeats.",
          "loss = disappearance of whole entries; each backend request is atomic; scheduling points are backend requests only"),
  "C06": ("exploration", "differential monitor batched vs direct handler + per-caller exact models under the race detector", "§3 C06",
-         "The same commands go through the batching pool and a direct connection on identical fake stores and must agree (and agree with the model); concurrent callers with private keys each check an exact model; option grid incl. pool growth through the hook.",
+         "The same commands go through the batching pool and a direct connection on identical fake stores and must agree (and agree with the model); concurrent callers with private keys each check an exact model; option grid incl. pool growth through the hook; values larger than the socket buffers; cold starts (callers constructing their handler for a pool-less socket at the same moment).",
          "no connection loss (C13); batching compositions are those the OS scheduler produced, reported as observed burst sizes"),
  "C07": ("exploration", "intent round-trip monitor on the real parsers with consumed-byte accounting over segmenting readers", "§3 C07",
          "Well-formed pipelines are parsed by rend's parsers from a reader cut at every offset / bytewise / field boundaries; decoded structs are compared with the intent and consumed bytes with encoded lengths; protocol choice observed on memproxy.",
          "well-formed input only (C11 covers malformed); default bufio size"),
  "C11": ("exploration", "parser monitors (panic, allocation bound, read count) over grid/mutation/fuzz inputs + server-level liveness probes", "§3 C11",
-         "Arbitrary bytes are fed to the real parsers under panic/allocation/read-count monitors (exhaustive header grid, mutations, native coverage-guided fuzzing) and to the real memproxy, which must reply or close, stay alive and not wait for a bogus length.",
+         "Arbitrary bytes are fed to the real parsers under panic/allocation/read-count monitors (exhaustive header grid, mutations, native coverage-guided fuzzing) and to the real memproxy, which must reply or close, stay alive and not wait for a bogus length (state read from goroutine dumps while the client stays connected); goroutine-stack growth is bounded like heap allocation.",
          "allocation measured as Go heap allocation with a 4 MiB constant; inputs consistently declaring > 1 MiB skipped"),
  "C16": ("exploration", "pure observation of the backend request log against the slab arithmetic of the statement", "§3 C16",
-         "For every key length 1..250 and value lengths at every chunk boundary the chunk writes seen by the fake backend must have one value length per key length, fit the 1184-byte slab, number ceil(len/payload), share the metadata's token; metadata is 40 bytes.",
+         "For every key length 1..250 and value lengths at every chunk boundary the chunk writes seen by the fake backend must have one value length per key length, fit the 1184-byte slab, number ceil(len/payload), share the metadata's token; metadata is 40 bytes; also over entries another writer laid out, and at deployment level (memproxy --chunked with other L1 options, the constructor called while the backend comes up).",
          "67-byte overhead and 1184-byte slab are the statement's constants"),
  "C17": ("exploration", "sequential differential monitor + race detector / crash monitor on concurrent goroutines", "§3 C17",
-         "inmem.New() is compared with the reference map over random sequences and certain-by-construction expiry scenarios; 2..32 goroutines share the singleton under the race detector with per-goroutine exact models, exit status and stderr as liveness monitors.",
+         "inmem.New() is compared with the reference map over random sequences and certain-by-construction expiry scenarios; 2..32 goroutines share the singleton under the race detector with per-goroutine exact models, exit status and stderr as liveness monitors; the backend's first constructions happen concurrently in a fresh process; other connections are closed between commands.",
          "relative TTLs only; expiry checks stay >= 1 s away from the second boundary"),
  "C18": ("exploration", "read-back of the real /metrics endpoint against exact sums/multisets + hook sweeps of bucket index and bit count, race detector", "§3 C18",
-         "Counters after concurrent increments must equal exact sums; histogram count/min/max/percentile membership over consecutive periods and with a concurrent scraper; bucket index monotone with bound >= value on boundary/random sweeps; assembly and portable bit count both against math/bits.",
+         "Counters after concurrent increments must equal exact sums; histogram count/min/max/percentile membership over consecutive periods and with a concurrent scraper; bucket index monotone with bound >= value on boundary/random sweeps; assembly and portable bit count both against math/bits; burst-opened periods, overlapping scrapes, concurrent registration, gauges registered next to counters.",
          "sampling mode unused by registered histograms; periods kept below the 32768-slot ring"),
  "C19": ("exploration", "metamorphic monitor (permutation / removal / balance) on the real ring with boundary probes and collision search, end-to-end node logs", "§3 C19",
-         "The real Continuum routes random keys and every ring point +-1 identically for all permutations, re-routes only the removed node's keys, gives every node a share; label sets with colliding ring points are searched; set/get through two handlers must reach the same fake TCP node.",
+         "The real Continuum routes random keys and every ring point +-1 identically for all permutations, re-routes only the removed node's keys, gives every node a share; label sets with colliding ring points are searched; set/get through two handlers must reach the same fake TCP node; the cluster proxy binary over two listings of 12 nodes; Consul discovery in shuffled orders; a handle constructed while a node is down.",
          "weights are constant 1 in the code; ring points are recomputed only to place probes"),
  "C03": ("exploration", "controlled-scheduler exploration of the real locked orchestrators + porcupine linearizability checking; free-running stress histories", "§3 C03",
-         "Real LockedOrca/L1L2/L1L2Batch code runs over real std handlers and fake backends with lock acquisitions and backend requests as scheduling points (lockers replaced through the verif hook); all schedules of small programs are enumerated, each history checked with porcupine and the final stores for L1 subset of L2; client-side histories of the real memproxy --locked under stress are checked too.",
+         "Real LockedOrca/L1L2/L1L2Batch code runs over real std handlers and fake backends with lock acquisitions and backend requests as scheduling points (lockers replaced through the verif hook); all schedules of small programs are enumerated, each history checked with porcupine and the final stores for L1 subset of L2; client-side histories of the real memproxy --locked under stress are checked too, and rounds in which the first commands ever to use a lock stripe arrive together (L1 = L2 afterwards, race detector on).",
          "exhaustive only over our scheduling points; backend requests atomic; stress shows only the OS's schedules"),
  "C09": ("exploration", "per-command deadline probe on every fake tier entry against the reference model on a shared virtual clock + virtual-time read-back", "§3 C09",
          "After every command of seeded sequences the deadline of every live entry of the key in every fake tier (metadata and chunks for chunked L1) must equal the model's; then the virtual clock is moved around every deadline and reads must hit/miss like the model; both gete conventions.",
          "TTL classes >= 1000 s apart; tolerance = real elapsed + 2 s only where rend derives absolute times from its own clock"),
  "C10": ("fault_enumeration", "single-fault enumeration at the fake backends with strict client decoding, state-based hang verdict and possible-state model", "§3 C10",
-         "For each short program every (tier, backend request index, fault kind) is injected once; the client stream must be well-formed and end in a reply or a close, the process and a bystander connection must be unaffected, hangs are decided from goroutine dumps with idle backends, verification reads are judged by a possible-state model.",
+         "For each short program every (tier, backend request index, fault kind) is injected once; the client stream must be well-formed and end in a reply or a close, the process and a bystander connection must be unaffected, hangs are decided from goroutine dumps with idle backends, verification reads are judged by a possible-state model; the faulted request itself must be answered (not only the sentinel behind it); the batching pool as L1 gets status faults.",
          "single faults; not-found/not-stored statuses are made truthful by evicting the entry; 'key exists' is not injected"),
  "C12": ("fault_enumeration", "instrumented lockers (holder table) + panic/error injection at every call of handlers and responder under the real server loop", "§3 C12",
          "The real server.Loop runs over orcas.Locked with recording lockers installed through the hook; a dry run counts the calls a command makes, then panic / I/O error / application error is injected at every call; holder table empty, <= 1 lock per connection, probe on the same key completes, panic closes the connection; plus opposite-order multi-gets and vanishing clients.",
@@ -58,7 +58,7 @@ CHECKS = {
          "memproxy -race serves up to 64 concurrent connections on private keys with an error-reply-heavy mix while /metrics is scraped; each connection's replies are compared with its own model and every race report with a rend frame is a violation; the pool's recovery path is driven by C13's workload under -race.",
          "absence of a report is not absence of a race; detection is probabilistic per run, workloads are shaped for the known-hard pooled-object pattern"),
  "C15": ("fault_enumeration", "prefix enumeration of client streams with backend connection accounting, fresh-client probes and goroutine dumps", "§3 C15",
-         "For every prefix length of representative request streams a client connects, sends the prefix and disappears (close / half-close / reset); the fake backends' open-connection counts must return to baseline, a fresh client must be served on the same keys, and the final goroutine dump must contain no goroutine serving a connection.",
+         "For every prefix length of representative request streams a client connects, sends the prefix and disappears (close / half-close / reset); the fake backends' open-connection counts must return to baseline, a fresh client must be served on the same keys, and the final goroutine dump must contain no goroutine serving a connection; also after the backend refused part of a write, and Close() of the cluster handle must end one connection per node.",
          "'closed' = the fake backend saw EOF/reset; prefixes beyond 160 bytes are sampled"),
 }
 NOT_YET = {}
